@@ -68,10 +68,16 @@ def features(q):
                     f.add("same-node-var-twice-in-pattern")
                     if seen_frame:
                         f.add("same-node-var-twice-after-earlier-clause")
+                # `[*n]` / `[*n..n]`: an expansion of one exact length (the translator may lower it to n fixed steps)
+                has_exact = bool(re.search(r"\[[^\]]*\*\s*(\d+)\s*(?:\.\.\s*\1\s*)?(?:\{[^}]*\}\s*)?\]", p))
+                if has_exact:
+                    f.add("exact-length-expansion")
                 if any(v in bound for v in vs):
                     f.add("pattern-uses-earlier-binding")
                     if has_var:
                         f.add("varlen-uses-earlier-binding")
+                    if has_exact:
+                        f.add("exact-length-expansion-uses-earlier-binding")
                 if re.search(r"\{[^}]*\b([a-z_][a-z0-9_]*)\.[a-z_]", p):
                     m = re.findall(r"\{[^}]*?\b([a-z_][a-z0-9_]*)\.[a-z_]", p)
                     if any(v in bound for v in m):
